@@ -154,11 +154,20 @@ def export_item(item):
     meta = {"failures": []}
 
     def one(k, tag, g, d):
-        rows, tabs = export.export(orig, g)
+        try:
+            rows, tabs = export.export(orig, g)
+        except export.ExportError as e:
+            # a graph the exporter cannot encode (a payload value that is no integer, ...): the comparisons
+            # made above on the Python side stand; the correspondence with the model is not run for it
+            meta.setdefault("export_errors", []).append("%s%s: %s" % (k, tag, str(e)[:100]))
+            return
         try:
             dr = dict_rows(d, tabs)
         except KeyError as e:
             meta["failures"].append({"stage": k, "what": tag, "reason": "dictionary names something the graph does not hold: %r" % (e,)})
+            return
+        if not all(isinstance(x, int) and not isinstance(x, bool) for r in rows + dr for x in r):
+            meta.setdefault("export_errors", []).append("%s%s: a field that is no integer" % (k, tag))
             return
         texts.append("#%d%s\n" % (k, tag) + "\n".join(" ".join(map(str, r)) for r in [[115]] + rows + dr) + "\n0\n")
 
@@ -197,6 +206,9 @@ def export_item(item):
                 txt, exc = fromdict_text("%df-%s" % (k, what), orig, dd)
             except export.ExportError as e:
                 meta.setdefault("fromdict_skipped", []).append("%s: %s" % (what, str(e)[:80]))
+                continue
+            if not all(tok.lstrip("-").isdigit() for ln in txt.splitlines() if not ln.startswith("#") for tok in ln.split()):
+                meta.setdefault("fromdict_skipped", []).append("%s: a field that is no integer" % what)
                 continue
             texts.append(txt)
             meta.setdefault("fromdict", []).append([what, exc])
